@@ -230,6 +230,20 @@ func cmdRun(args []string) {
 			}
 		}
 	}
+	// ---- undecided obligations: concrete probing of the native build (fallback, reported as such) ----
+	if !*noReplay {
+		pv, pstat, err := probeUndecided(pd, results, kf, seed)
+		if err != nil {
+			fmt.Fprintf(os.Stderr, "PROBE ERROR: %v\n", err)
+			os.Exit(2)
+		}
+		ev.cov["undecided_obligations_probed_natively"] = pstat
+		for _, c := range pv {
+			violations++
+			vioLines = append(vioLines, fmt.Sprintf("VIOLATION property=%s replay=%s", pd.ID, c.path))
+			fmt.Printf("  violated (concrete probe of an undecided obligation): %s [%s] assertion %s\n", c.inst, c.harness, c.assert)
+		}
+	}
 	var kfIDs []string
 	for id := range kfSeen {
 		kfIDs = append(kfIDs, id)
@@ -1086,4 +1100,141 @@ func uniqSorted(a []string) []string {
 	}
 	sort.Strings(out)
 	return out
+}
+
+// probeUndecided: an obligation the solver could not decide within its time limit (typically 64-bit floating-point division or
+// long FP sums) is reported as inconclusive - never as held. As a fallback the instances that have such obligations are also
+// run natively on seeded concrete vectors (the same harness, compiled natively, is its own oracle); a vector on which an
+// assertion fails outside the open findings' regions is a violation with a replay file. This is sampling, used only where
+// the solver gave no verdict, and is reported separately in the evidence.
+func probeUndecided(pd *propDef, results []InstResult, kf *KFFile, seed int64) ([]*candidate, map[string]interface{}, error) {
+	stat := map[string]interface{}{"instances": 0, "vectors": 0, "violations": 0}
+	var insts []InstResult
+	for _, r := range results {
+		if strings.HasPrefix(r.Inst.Harness, "@") || len(r.NDNames) == 0 {
+			continue
+		}
+		und := false
+		for _, o := range r.Obls {
+			if o.Verdict == "inconclusive" {
+				und = true
+			}
+		}
+		if und {
+			insts = append(insts, r)
+		}
+	}
+	if len(insts) == 0 {
+		return nil, stat, nil
+	}
+	if len(insts) > 24 {
+		step := len(insts) / 24
+		var sel []InstResult
+		for i := 0; i < len(insts) && len(sel) < 24; i += step {
+			sel = append(sel, insts[i])
+		}
+		insts = sel
+	}
+	const perInst = 12
+	dir := filepath.Join(outDir(), "replays", pd.ID)
+	os.MkdirAll(dir, 0o755)
+	rng := rand.New(rand.NewSource(seed*104729 + 17))
+	base := kf.openSet()
+	type pr struct {
+		r    InstResult
+		path string
+	}
+	byTags := map[string][]pr{}
+	n := 0
+	for ii, r := range insts {
+		ko := kf.openSetFor(pd.ID+":"+r.Inst.Name, base)
+		var open []string
+		for id := range ko {
+			open = append(open, id)
+		}
+		sort.Strings(open)
+		for k := 0; k < perInst; k++ {
+			m := map[string]string{}
+			for j, name := range r.NDNames {
+				m[name] = probeLiteral(rng, r.NDSorts[j])
+			}
+			path := filepath.Join(dir, fmt.Sprintf("probe-%d-%d.json", ii, k))
+			rf := map[string]interface{}{"harness": r.Inst.Harness, "cfg": r.Inst.Cfg, "model": ringModel(m, r.Inst.Ring, r.Inst.Cfg), "assert": "", "kf_open": open, "instance": r.Inst.Name, "origin": "concrete probe of an undecided obligation"}
+			b, _ := json.MarshalIndent(rf, "", " ")
+			os.WriteFile(path, b, 0o644)
+			tg, _ := r.Inst.Cfg["tags"].(string)
+			byTags[tg] = append(byTags[tg], pr{r, path})
+			n++
+		}
+	}
+	stat["instances"], stat["vectors"] = len(insts), n
+	var out []*candidate
+	for tg, list := range byTags {
+		var paths []string
+		for _, p := range list {
+			paths = append(paths, p.path)
+		}
+		nat, err := nativeBatch(paths, tg)
+		if err != nil {
+			return nil, stat, err
+		}
+		for _, p := range list {
+			res, ok := nat[p.path]
+			bad := ""
+			if ok && !res.assumeKO {
+				if res.panicked {
+					bad = "no-uncaught-panic"
+				}
+				for _, f := range res.failures {
+					if !strings.Contains(f, "@") { // (failures inside an open finding's region carry "@<finding>")
+						bad = f
+					}
+				}
+			}
+			if bad == "" {
+				os.Remove(p.path)
+				continue
+			}
+			if len(out) < 6 {
+				// record the failing assertion in the replay file (for `check --replay`)
+				if b, err := os.ReadFile(p.path); err == nil {
+					var rf map[string]interface{}
+					if json.Unmarshal(b, &rf) == nil {
+						rf["assert"] = bad
+						nb, _ := json.MarshalIndent(rf, "", " ")
+						os.WriteFile(p.path, nb, 0o644)
+					}
+				}
+				out = append(out, &candidate{inst: p.r.Inst.Name, harness: p.r.Inst.Harness, assert: bad, cfg: p.r.Inst.Cfg, path: p.path, confirmed: true})
+			} else {
+				os.Remove(p.path)
+			}
+		}
+	}
+	stat["violations"] = len(out)
+	return out, stat, nil
+}
+
+// probeLiteral: a richer distribution than the translator-validation vectors (which favour special values).
+func probeLiteral(rng *rand.Rand, tag string) string {
+	switch {
+	case tag == "f32" || tag == "f64":
+		var x float64
+		switch rng.Intn(10) {
+		case 0:
+			return randomLiteral(rng, tag, "")
+		case 1:
+			x = float64(rng.Intn(21) - 10)
+		default:
+			x = (rng.Float64()*2 - 1) * math.Pow(10, float64(rng.Intn(9)-4))
+		}
+		if tag == "f32" {
+			return fmt.Sprintf("f32:%d", math.Float32bits(float32(x)))
+		}
+		return fmt.Sprintf("f64:%d", math.Float64bits(x))
+	case strings.HasPrefix(tag, "u") && rng.Intn(2) == 0:
+		w, _ := strconv.Atoi(tag[1:])
+		return fmt.Sprintf("%s:%d", tag, rng.Uint64()&maskW(w))
+	}
+	return randomLiteral(rng, tag, "")
 }
